@@ -20,6 +20,10 @@ type (
 		totalQPSLimiterLock   sync.RWMutex
 		handlerQPSLimiter     map[string]*qpsLimiter
 		handlerQPSLimiterLock sync.RWMutex
+		// connHolders records, for every session whose connection slot was taken,
+		// the limiter it was taken from, so that exactly that slot is released once.
+		connHolders     map[interface{}]*connLimiter
+		connHoldersLock sync.Mutex
 	}
 	// LimitConfig overload limitation condition
 	LimitConfig struct {
@@ -47,6 +51,7 @@ var (
 func New(initLimitConfig LimitConfig) *Overloader {
 	o := &Overloader{
 		handlerQPSLimiter: make(map[string]*qpsLimiter),
+		connHolders:       make(map[interface{}]*connLimiter),
 	}
 	o.Update(initLimitConfig)
 	return o
@@ -68,8 +73,8 @@ func (o *Overloader) PostDial(sess erpc.PreSession, isRedial bool) *erpc.Status 
 
 // PostAccept checks connection overload.
 // If overload, print error log and close the connection.
-func (o *Overloader) PostAccept(_ erpc.PreSession) *erpc.Status {
-	if o.takeConn() {
+func (o *Overloader) PostAccept(sess erpc.PreSession) *erpc.Status {
+	if o.takeConnFor(sess) {
 		return nil
 	}
 	msg := fmt.Sprintf("connection overload, limit=%d, now=%d",
@@ -78,9 +83,11 @@ func (o *Overloader) PostAccept(_ erpc.PreSession) *erpc.Status {
 	return erpc.NewStatus(erpc.CodeInternalServerError, msg, nil)
 }
 
-// PostDisconnect releases connection count.
-func (o *Overloader) PostDisconnect(_ erpc.BaseSession) *erpc.Status {
-	o.releaseConn()
+// PostDisconnect releases the connection slot held by the session, if any.
+// NOTE: it is also executed for sessions that were rejected by a PostAccept plugin
+// (they never took a slot, or already gave it back), so only recorded holders release.
+func (o *Overloader) PostDisconnect(sess erpc.BaseSession) *erpc.Status {
+	o.releaseConnFor(sess)
 	return nil
 }
 
@@ -198,6 +205,40 @@ func (o *Overloader) releaseConn() {
 		o.connLimiter.release()
 	}
 	o.connLimiterLock.RUnlock()
+}
+
+// takeConnFor takes a connection slot for the session and records it as the holder.
+// A session that already holds a slot (a retried dial) does not take another one.
+func (o *Overloader) takeConnFor(sess interface{}) bool {
+	o.connHoldersLock.Lock()
+	_, held := o.connHolders[sess]
+	o.connHoldersLock.Unlock()
+	if held {
+		return true
+	}
+	o.connLimiterLock.RLock()
+	l := o.connLimiter
+	bol := l == nil || l.take()
+	o.connLimiterLock.RUnlock()
+	if bol && l != nil {
+		o.connHoldersLock.Lock()
+		o.connHolders[sess] = l
+		o.connHoldersLock.Unlock()
+	}
+	return bol
+}
+
+// releaseConnFor releases the slot recorded for the session, at most once.
+func (o *Overloader) releaseConnFor(sess interface{}) {
+	o.connHoldersLock.Lock()
+	l, held := o.connHolders[sess]
+	if held {
+		delete(o.connHolders, sess)
+	}
+	o.connHoldersLock.Unlock()
+	if held {
+		l.release()
+	}
 }
 
 func (o *Overloader) takeTotalQPS() bool {
